@@ -13,19 +13,23 @@ macro_rules! dispatch {
             "C01" => engine::$f::<c01::C01>($($arg),*),
             "C02" => engine::$f::<c02::C02>($($arg),*),
             "C03" => engine::$f::<c03::C03>($($arg),*),
+            "C04" => engine::$f::<c04::C04>($($arg),*),
             "C05" => engine::$f::<c05::C05>($($arg),*),
             "C06" => engine::$f::<c06::C06>($($arg),*),
             "C07" => engine::$f::<c07::C07>($($arg),*),
             "C08" => engine::$f::<c08::C08>($($arg),*),
             "C09" => engine::$f::<c09::C09>($($arg),*),
+            "C10" => engine::$f::<c10::C10>($($arg),*),
             "C11" => engine::$f::<c11::C11>($($arg),*),
             "C12" => engine::$f::<c12::C12>($($arg),*),
             "C13" => engine::$f::<c13::C13>($($arg),*),
+            "C14" => engine::$f::<c14::C14>($($arg),*),
             "C15" => engine::$f::<c15::C15>($($arg),*),
             "C16" => engine::$f::<c16::C16>($($arg),*),
             "C17" => engine::$f::<c17::C17>($($arg),*),
             "C18" => engine::$f::<c18::C18>($($arg),*),
             "C19" => engine::$f::<c19::C19>($($arg),*),
+            "C20" => engine::$f::<c20::C20>($($arg),*),
             _ => { eprintln!("unknown property {}", $id); std::process::exit(2) }
         }
     };
@@ -60,6 +64,7 @@ fn main() {
             let code = dispatch!(args[2].as_str(), replay, &root, std::path::Path::new(&args[3]));
             std::process::exit(code);
         }
+        "det-child" => std::process::exit(c20::det_child()),
         _ => usage(),
     }
 }
